@@ -32,18 +32,33 @@ numbers; the native replay uses the untouched struct and compares float32 values
 geomdl.ray reads sys.float_info.epsilon (a raw float): in sym mode the global `sys` of geomdl.ray is replaced by a
 stand-in whose float_info.epsilon is the exact rational 2**-52 (A1).
 
+Ranges: topology quick = every (size_u, size_v) in [2,12]^2, thorough = [2,40]^2 (the property's own range), every
+spacing dividing both size-1 values (spacings >= 3 in instances of their own, see known finding
+C15-triangle-mesh-vertex-spacing); object API / containers / exports: sample sizes 2..7 (thorough ..9), spacing 1..4.
+Not claimed: face ids (the statement numbers vertices only), the direction of OBJ 'vn' vertex normals (only their count),
+histories (exporting after SurfaceContainer.tessellate etc. belongs to C12).
+
 Shape family: normalised clamped knot vectors (normalize_kv left at its default; the other setting belongs to C17),
 sample sizes and spacings as listed per scenario, one symbolic coordinate per control point (the other two are concrete
 and chosen so that the (y,z) projection of every mesh triangle is non-degenerate: the sign test of the facet normals is
 then a comparison of constants).
 """
+import os
+import shutil
 import struct as _real_struct
+import tempfile
 from fractions import Fraction
 
 from .api import scenario
 from . import shapes, spec, assumptions
 
-assumptions.PROPS['C15'] = {'level': 'other', 'assume': ['A1', 'A2', 'A3', 'A4', 'A5', 'A6']}
+assumptions.PROPS['C15'] = {
+    'level': 'other', 'assume': ['A1', 'A2', 'A3', 'A4', 'A5', 'A6'],
+    'explanation': 'Engine B. Mesh topology (tri_topology, quad_topology) is run on concrete grids for every (size_u, size_v) of '
+                   'the stated range and every admissible vertex_spacing: exhaustive over that range, independent of '
+                   'coordinates. Surface / container / export scenarios run the real code on symbolic surfaces (exact rational '
+                   'functions) for the listed sample sizes; printed numbers travel as opaque tokens (A3), struct.pack as a '
+                   'recording stand-in (A4). trim_region is exploration-grade: concrete trim placements only.'}
 
 
 # ------------------------------------------------------------------------------------------------
@@ -531,6 +546,18 @@ def _exchange(ctx):
     return ex, lambda raw: list(_real_struct.unpack('<3f', raw))
 
 
+class _TmpDir(object):
+    """real temporary directory under $TMPDIR (or /tmp), removed on exit (also when a path is abandoned)"""
+
+    def __enter__(self):
+        self.path = tempfile.mkdtemp(prefix='verif_c15_', dir=os.environ.get('TMPDIR') or '/tmp')
+        return self.path
+
+    def __exit__(self, *exc):
+        shutil.rmtree(self.path, ignore_errors=True)
+        return False
+
+
 def _read_obj(ctx, text):
     """-> vertices [[x,y,z]], parametric vertices [[u,v]], vertex normals, faces [[a,b,c]] (1-based, as written)"""
     v, vp, vn, f, other = [], [], [], [], []
@@ -604,7 +631,13 @@ def _check_facet(ctx, tag, normal, vs, tri):
     e2 = [b - a for a, b in zip(vs[0], vs[2])]
     c = _cross3(e1, e2)
     ctx.check_true(tag + '.normal.len', len(normal) == 3)
-    ctx.check_eq_vec(tag + '.normal_parallel_to_edge_cross_product', _cross3(normal, c), [0, 0, 0])
+    if ctx.mode == 'sym':
+        ctx.check_eq_vec(tag + '.normal_parallel_to_edge_cross_product', _cross3(normal, c), [0, 0, 0])
+    else:       # native replay: binary STL stores float32, so the test is relative to |normal| * |cross product|
+        scale = (sum(x * x for x in normal) * sum(x * x for x in c)) ** Fraction(1, 2)
+        ctx.check_true(tag + '.normal_parallel_to_edge_cross_product',
+                       all(abs(x) <= Fraction(1, 10 ** 5) * scale for x in _cross3(normal, c)),
+                       'normal %r, (v1-v0)x(v2-v0) = %r' % (normal, c))
     # the x component of the cross product depends only on the concrete (y,z) coordinates: a sign test of constants
     if ctx.is_const(c[0]) and _fr(ctx, c[0]) != 0:
         ctx.check(tag + '.normal_by_right_hand_rule', ctx.gt(normal[0] * c[0], 0),
@@ -620,7 +653,10 @@ def _export_instances(tier):
                 dict(fmt=fmt, members=[S_BILIN, S_12R], wrap=True, sizes=[[3, 3]], sp=2, update_delta=True),
                 dict(fmt=fmt, members=[S_12R, S_BILIN, S_21], wrap=True, sizes=[[2, 3], [2, 2], [3, 2]], sp=1, update_delta=False)]
     out += [dict(fmt='objp', members=[S_BILIN, S_21], wrap=True, sizes=[[2, 3], [3, 2]], sp=1, update_delta=False),
+            dict(fmt='objn', members=[S_BILIN, S_21], wrap=True, sizes=[[2, 2], [3, 2]], sp=1, update_delta=False),
             dict(fmt='off', members=[S_22], wrap=True, sizes=[[2, 2]], sp=1, update_delta=True)]
+    for fmt in ('obj', 'off', 'stl', 'stlb'):       # the file writers export_obj / export_off / export_stl
+        out.append(dict(fmt=fmt, members=[S_21, S_BILIN], wrap=True, sizes=[[2, 3], [3, 2]], sp=1, update_delta=False, to_file=True))
     if tier == 'thorough':
         for fmt in ('obj', 'off', 'stl', 'stlb'):
             out += [dict(fmt=fmt, members=[S_22, S_11K, S_32R], wrap=True, sizes=[[3, 4], [4, 3], [2, 5]], sp=1, update_delta=False),
@@ -635,11 +671,13 @@ def _export_instances(tier):
                       'multi.AbstractContainer.__iter__', 'multi.SurfaceContainer.sample_size_u',
                       'abstract.SplineGeometry.__iter__', 'elements.Vertex.x', 'elements.Triangle.vertices'],
           quick=lambda: _export_instances('quick'), thorough=lambda: _export_instances('thorough'))
-def export_mesh(ctx, fmt, members, wrap, sizes, sp, update_delta):
+def export_mesh(ctx, fmt, members, wrap, sizes, sp, update_delta, to_file=False):
     """requires: 1..3 valid surfaces (symbolic x coordinates, concrete knots / weights), exported alone or as a
                  multi.SurfaceContainer; update_delta=True: sizes[0] is set on the exported object and pushed to every
                  surface by the exporter; False: surface k keeps sizes[k]; vertex_spacing sp divides every size-1
-       fmt     : obj / objp (parametric_vertices=True) / off / stl (ascii) / stlb (binary)
+       fmt     : obj / objp (parametric_vertices=True) / objn (vertex_normals=True) / off / stl (ascii) / stlb (binary);
+                 to_file: through export_obj / export_off / export_stl and a real temporary file instead of the *_str
+                 functions (export_stl: binary is its default)
        ensures : after the export every surface holds a valid mesh on its sampling lattice (contract (a), (b)); the text /
                  bytes parsed back by the readers of this module: as many vertex records as mesh vertices and as many
                  face records as mesh triangles, in surface order; record i of surface k = vertex i of its mesh; face
@@ -658,9 +696,22 @@ def export_mesh(ctx, fmt, members, wrap, sizes, sp, update_delta):
     kw = dict(vertex_spacing=sp, update_delta=update_delta)
     if sp == 1 and update_delta:
         kw = {}                                  # the documented defaults
-    if fmt in ('obj', 'objp'):
-        if fmt == 'objp':
-            kw['parametric_vertices'] = True
+    if fmt == 'objp':
+        kw['parametric_vertices'] = True
+    if fmt == 'objn':
+        kw['vertex_normals'] = True
+    if to_file:
+        if fmt == 'stl':
+            kw['binary'] = False
+        fn = {'obj': ex.export_obj, 'objp': ex.export_obj, 'objn': ex.export_obj, 'off': ex.export_off,
+              'stl': ex.export_stl, 'stlb': ex.export_stl}[fmt]
+        with _TmpDir() as tmp:
+            path = os.path.join(tmp, 'mesh.' + fmt[:3])
+            _call(ctx, 'export.call', fn, top, path, **kw)
+            ctx.check_true('export.file_written', os.path.isfile(path))
+            with open(path, 'rb' if fmt == 'stlb' else 'r') as fh:
+                out = fh.read()
+    elif fmt in ('obj', 'objp', 'objn'):
         out = _call(ctx, 'export.call', ex.export_obj_str, top, **kw)
     elif fmt == 'off':
         out = _call(ctx, 'export.call', ex.export_off_str, top, **kw)
@@ -677,7 +728,7 @@ def export_mesh(ctx, fmt, members, wrap, sizes, sp, update_delta):
     nvert = sum(len(m[0]) for m in meshes)
     nface = sum(len(m[1]) for m in meshes)
 
-    if fmt in ('obj', 'objp', 'off'):
+    if fmt in ('obj', 'objp', 'objn', 'off'):
         one = 1 if fmt != 'off' else 0
         if fmt == 'off':
             ctx.check_true('off.is_text', isinstance(out, str))
@@ -692,7 +743,11 @@ def export_mesh(ctx, fmt, members, wrap, sizes, sp, update_delta):
             ctx.check_true('obj.is_text', isinstance(out, str))
             fv, vp, vn, ff, other, closed = _read_obj(ctx, out)
             ctx.check_true('obj.only_known_records', other == [] and closed, 'unexpected lines %r' % (other[:3],))
-            ctx.check_true('obj.no_vertex_normals_unless_asked', vn == [])
+            if fmt == 'objn':
+                ctx.check_true('obj.vn.count', len(vn) == nvert and all(len(x) == 3 for x in vn),
+                               '%d vn records, %d vertices' % (len(vn), nvert))
+            else:
+                ctx.check_true('obj.no_vertex_normals_unless_asked', vn == [])
             if fmt == 'objp':
                 ctx.check_true('obj.vp.count', len(vp) == nvert, '%d vp records, %d vertices' % (len(vp), nvert))
             else:
@@ -834,11 +889,11 @@ def _trim_instances(tier):
         for name in ('square', 'triangle', 'triangle_cw', 'ell', 'sliver', 'spline'):
             for n in ([12, 9], [16, 16], [21, 17]):
                 for sense in (0, 1):
-                    if sense == 1 and name == 'sliver':
-                        continue                # no point of the sliver is farther than a cell from its border
+                    if sense == 1 and (name == 'sliver' or n == [12, 9]):
+                        continue                # the kept side (inside the curve) has no point farther than a cell from it
                     out.append(dict(trim=name, n=n, sp=1, sense=sense, places=len(SHIFTS)))
         out += [dict(trim='ell', n=[21, 21], sp=2, sense=0, places=len(SHIFTS)),
-                dict(trim='spline', n=[19, 13], sp=3, sense=0, places=len(SHIFTS))]
+                dict(trim='spline', n=[37, 31], sp=3, sense=0, places=len(SHIFTS))]
     return out
 
 
